@@ -19,28 +19,61 @@ MANIFEST = {
             "#E(F_p) = n for secp256k1 and secp256r1 (proved without Hasse: #E <= 2p+1 < 3n, n | #E by Lagrange, #E = 2n excluded by "
             "Cauchy and a generated kernel-checked certificate that x^3+ax+b has no root mod p), hence order•P = ∞ and multiply(P, e) = "
             "e•P for every curve point, every point other than infinity has order n, no point has y = 0; "
-            "points_for_x returns exactly the two points with that abscissa, even y first. Model tied to the code by differential "
-            "correspondence in both arithmetic configurations on every run, plus exhaustive toy-curve tables in the thorough tier (tests).",
-    "note": "libsecp256k1 is absent in this sandbox: its glue (ecdsa/native/secp256k1.py) is never executed. OpenSSL's EC_POINT_mul / "
-            "BN_mod_inverse are compared differentially with the pure path and the model, not verified. On a generic curve order•P = ∞ is stated for points "
+            "points_for_x returns exactly the two points with that abscissa, even y first. "
+            "NATIVE BACKENDS: the glue of native/openssl.py + native/bignum.py (Optimizations.multiply/raw_mul/inverse_mod, BignumType) "
+            "and of native/secp256k1.py (__mul__, multiply) is modelled statement by statement (Model/NativeCurve.lean) with the C "
+            "library an explicit parameter (LibCrypto / LibSecp256k1: the functions the glue calls, return codes included); what the "
+            "library is assumed to do is the hypothesis LibCryptoOk / LibSecpOk (Proofs/NativeContract.lean, NativeSecp.lean), never an "
+            "axiom, satisfiable by executable instances built from the pure model (C02_openssl_contract_satisfiable_*). Under it: "
+            "OpenSSL multiply(P, e) returns the coordinates of the pure multiply (reduced mod p) for every curve point - infinity, "
+            "unreduced/negative coordinates, a zero coordinate - and every integer e (C02_openssl_multiply_secp256k1/_secp256r1, no "
+            "torsion hypothesis); raw_mul and the blinded __mul__ agree for every scalar and blinding factor; inverse_mod agrees on "
+            "every operand for moduli > 1 (inverse, or AssertionError); Point + Point, generate_shared_public_key and the constructor "
+            "agree. Models tied to the code by differential correspondence in both arithmetic configurations on every run - the pure "
+            "model against the pure and OpenSSL classes, the GLUE model (over the pure-model libcrypto) against the real OpenSSL "
+            "class on boundary inputs (ops ec_ossl_*) - the contract probed on the real libcrypto (ossl_probe), plus exhaustive "
+            "toy-curve tables in the thorough tier (tests).",
+    "note": "TRUSTED, as explicit hypotheses of the C02_openssl_* / C02_libsecp_* theorems: LibCryptoOk (EC_POINT_mul computes e•P for a "
+            "finite reduced curve point and 0 < e < n; EC_POINT_get_affine_coordinates fails on infinity and leaves its outputs alone; "
+            "BN_mod_inverse returns the inverse or NULL; BN_mpi2bn decodes MPI; c_ulong is BN_ULONG) - its observable clauses are "
+            "checked against the real library on every run (group parameters of the NID = the Python constants, e = n and e = 0 give "
+            "rc 0 and untouched outputs, NULL for operands without inverse, MPI round trip); OpenSSL's internals are not verified. "
+            "libsecp256k1 is ABSENT from this sandbox: native/secp256k1.py is never executed, so its glue model and LibSecpOk are tied "
+            "to the source and to the library documentation BY READING ONLY (no correspondence possible); evidence.coverage.libsecp256k1 "
+            "says on every run whether the library is loadable in the environment of the run. Read-only findings in that glue: "
+            "multiply does not reduce coordinates (OverflowError / returns the Python value False for unreduced operands); "
+            "secp256k1_ecdsa_signature_normalize is called without argtypes. Fixed defect: OpenSSL inverse_mod ignored BN_mod_inverse's "
+            "NULL and handed the operand back (pure: AssertionError). "
+            "On a generic curve order•P = ∞ is stated for points "
             "with n•P = ∞ (C02_order_mul_partial); for secp256k1/secp256r1 it is proved for every curve point (C02_order_mul_secp256k1/_secp256r1); "
             "for BLS12-381 G1, which has a cofactor, it is refuted (known finding bls12-381-cofactor: r*(0,2) is reported as infinity).",
-    "technique": "Lean 4 proof (Mathlib group law, ring/field identities, kernel-checked Pratt certificates) + differential correspondence "
-                 "model vs implementation per backend + exhaustive toy-curve enumeration (test)",
+    "technique": "Lean 4 proof (Mathlib group law, ring/field identities, kernel-checked Pratt certificates; native glue over an explicit "
+                 "library contract) + differential correspondence model vs implementation per backend, glue model vs OpenSSL class, "
+                 "contract probes on the real library + exhaustive toy-curve enumeration (test)",
 }
 RULE = ("ops ec_add/ec_sub/ec_neg/ec_assoc/ec_mul/ec_rawmul/ec_blindmul/ec_genmul/ec_invmod(c)/ec_points_for_x/ec_on_curve/ec_sqrt/"
         "ec_shared on secp256k1, secp256r1 (both configurations), BLS12-381 (pure only), and toy curves built through pycoin's Generator; "
+        "ec_ossl_mul/rawmul/inv/add/blindmul/shared: the glue model of native/openssl.py against the OpenSSL class (e in {0, ±1, n-1, n, n+1, "
+        "2n, 2^256-1, -n}, P in {infinity, G, x = 0 on secp256r1, unreduced, off-curve}); ossl_probe: the library contract on the real libcrypto; "
         "ec_toy_* ops carry a whole addition / multiplication table of one toy curve; distinct = distinct op line; trivial = an operand is "
         "infinity or the scalar is 0/1")
 ASSUMPTIONS = [
-    "libsecp256k1 is not installed: the libsecp256k1 backend is never run; pure Python and OpenSSL-accelerated configurations are",
-    "OpenSSL (EC_POINT_mul, BN_mod_inverse) is compared differentially, not verified",
+    "libsecp256k1 is not installed: the libsecp256k1 backend is never run; its glue model (Secp.mul, Secp.multiply) and the contract LibSecpOk "
+    "are tied to native/secp256k1.py and the library documentation by reading only; pure Python and OpenSSL-accelerated configurations are run",
+    "libcrypto does what LibCryptoOk says (hypothesis of every C02_openssl_* theorem): EC_POINT_mul = e•P for finite reduced P and 0 < e < n, "
+    "get_affine fails on infinity leaving outputs untouched, BN_mod_inverse = inverse or NULL, BN_mpi2bn decodes MPI; probed on the real "
+    "library on every run where observable from Python, not verified",
+    "the EC_GROUP of NID_secp256k1 / NID_X9_62_prime256v1 is the curve the Python class is constructed with (probed: ossl_probe group)",
+    "integers handed to BignumType have fewer than 2^34 bits (BN_mpi2bn takes an int length; the model has the limit, the theorems the hypothesis Fits/CurveFits)",
     "the certificates that x^3+ax+b has no root mod p (translate/gen_curves.py, plain Python) are checked in the Lean kernel, not trusted",
-    "Python int arithmetic, pow(a, e, m) and ctypes glue are modelled, not verified",
+    "Python int arithmetic, pow(a, e, m), ctypes argument conversion and struct.pack are modelled, not verified",
     "toy-curve enumeration (all points/pairs/triples, k in [-2n, 2n]) is a test, not a theorem",
 ]
 TRUSTED = ["translate/gen_curves.py reads (p,a,b,Gx,Gy,n) from the live generator objects; Pratt certificates come from sympy and are "
-           "checked in the Lean kernel, so sympy is not trusted; likewise the no-root certificates noroot_* (inverse of X^p - X modulo the cubic)"]
+           "checked in the Lean kernel, so sympy is not trusted; likewise the no-root certificates noroot_* (inverse of X^p - X modulo the cubic)",
+           "lean/Pycoin/Proofs/NativeContract.lean: LibCryptoSpec / LibCryptoOk - the statement about libcrypto every OpenSSL theorem assumes",
+           "lean/Pycoin/Proofs/NativeSecp.lean: LibSecpSpec / LibSecpOk - the statement about libsecp256k1 (never compared with a real library)",
+           "harness/props/curve_common.py:_ossl_probe - the raw ctypes calls that ask the real libcrypto what the contract says"]
 
 
 def _bls_cofactor(v) -> bool:
